@@ -152,13 +152,20 @@ T_State == /\ Ev("state")
                   d == [smid |-> E.smid, inbound |-> E.inbound, bindjid |-> E.bindjid, want |-> keep, resumed |-> expc.resumed, before |-> kprev, prevjid |-> bindjid]
                   v1 == IF ~ok \/ ~expc.resumed \/ (E.smid = kprev.smid /\ E.inbound = kprev.inbound /\ E.bindjid = bindjid) THEN <<>> ELSE
                           <<V("C11", "resumed-session-keeps-identity-and-counters", "resumed", d)>>
-                  v2 == IF lastret = "hang" \/ expc.resumed \/ kprev.smid = "" \/ E.smid # kprev.smid \/ keep.smid = kprev.smid THEN <<>> ELSE
+                  \* over WebSocket a connection dropped right after <resume/> can surface as a failed WRITE of the request
+                  \* (the library reports a write error although the frame left): the client then cannot know whether the
+                  \* request was seen and may keep the state for another try; over TCP the drop is seen by the read
+                  wsDropAtResume == cf.ws /\ Len(reps) > 0 /\ reps[Len(reps)].stage = "resr" /\ reps[Len(reps)].v = "close"
+                  v2 == IF lastret = "hang" \/ expc.resumed \/ kprev.smid = "" \/ E.smid # kprev.smid \/ keep.smid = kprev.smid \/ wsDropAtResume THEN <<>> ELSE
                           <<V("C11", "stale-resumption-state-is-discarded", IF Len(reps) = 0 THEN "none" ELSE reps[Len(reps)].stage \o ":" \o reps[Len(reps)].v, d)>>
                   v3 == IF ~ok \/ expc.resumed \/ E.smid = keep.smid THEN <<>> ELSE
                           <<V("C11", "session-id-is-the-one-the-server-assigned", "enabled", d)>>
               IN verdicts' = IF dead THEN verdicts ELSE AddV(v1 \o v2 \o v3)
            /\ bindjid' = IF lastret = "ok" /\ ~expc.resumed THEN E.bindjid ELSE bindjid
-           /\ l' = l + 1 /\ UNCHANGED <<tid, cf, user, secret, keep, kprev, n, op, nst, reps, els, estab, lastret, expc, smdown, dead>>
+           \* the reference follows the client when it legitimately kept the state (see wsDropAtResume)
+           /\ keep' = IF cf.ws /\ Len(reps) > 0 /\ reps[Len(reps)].stage = "resr" /\ reps[Len(reps)].v = "close"
+                          /\ kprev.smid # "" /\ E.smid = kprev.smid THEN kprev ELSE keep
+           /\ l' = l + 1 /\ UNCHANGED <<tid, cf, user, secret, kprev, n, op, nst, reps, els, estab, lastret, expc, smdown, dead>>
 
 \* stanzas received while the session was up count towards the next <resume h/>
 T_Sess == /\ Ev("sess")
